@@ -120,6 +120,9 @@ def run_property(prop, tier, seed, replay=None, shards=None, quiet=False):
                 inconclusive.append(f"deciding-counter-low:{k}={merged['counters'].get(k, 0)}<{mn}")
         if merged["evaluations"] == 0:
             inconclusive.append("nothing-evaluated")
+        gl = merged["counters"].get("generator_glitch_cases_dropped", 0)
+        if gl > max(3, 0.005 * max(1, merged["cases"])):
+            inconclusive.append(f"generator-glitches-not-rare:{gl}/{merged['cases']}")
 
     wall = time.monotonic() - t0
     if not replay and not os.environ.get("VF_NO_EVIDENCE"):
